@@ -180,10 +180,18 @@ func genC06(g *Gen, tier string, w *bufio.Writer) {
 		case 11: // malformed JSON row at a position
 			nj := 1 + g.Intn(130)
 			bad := g.Intn(nj + 1)
+			badRow := "{\"a\": 1, \"b\" \n"
+			if g.Chance(1, 2) {
+				// a well-formed row the inferred schema has no place for: the 100 previewed rows all carry an Int `a`, a later
+				// row lacks it / holds a string, an object, a fraction
+				nj = 101 + g.Intn(60)
+				bad = 100 + g.Intn(nj-100+1)
+				badRow = Pick(g, []string{"{\"b\": \"x\"}\n", "{\"a\": \"str\", \"b\": \"x\"}\n", "{\"a\": {\"z\": 1}, \"b\": \"x\"}\n", "{}\n", "{\"a\": [1], \"b\": \"x\"}\n"})
+			}
 			var sb strings.Builder
 			for k := 0; k < nj; k++ {
 				if k == bad {
-					sb.WriteString("{\"a\": 1, \"b\" \n")
+					sb.WriteString(badRow)
 				} else {
 					fmt.Fprintf(&sb, "{\"a\": %d, \"b\": \"x\"}\n", k%3)
 				}
@@ -202,11 +210,18 @@ func genC06(g *Gen, tier string, w *bufio.Writer) {
 		case 12: // CSV row with the wrong number of fields
 			nr := 1 + g.Intn(6)
 			bad := g.Intn(nr + 1)
+			badRow := "1,2,3\n"
+			if g.Chance(1, 2) {
+				// a cell the inferred column type has no place for, beyond the 100 previewed rows
+				nr = 101 + g.Intn(40)
+				bad = 100 + g.Intn(nr-100+1)
+				badRow = Pick(g, []string{"x,x\n", "1.5,x\n", ",x\n", "true,x\n"})
+			}
 			var sb strings.Builder
 			sb.WriteString("a,b\n")
 			for k := 0; k < nr; k++ {
 				if k == bad {
-					sb.WriteString("1,2,3\n")
+					sb.WriteString(badRow)
 				} else {
 					fmt.Fprintf(&sb, "%d,x\n", k)
 				}
